@@ -337,6 +337,25 @@ func runC07(r *rt.Runner) {
 				file = bytes.ReplaceAll(bytes.ReplaceAll(file, []byte("\r\n"), []byte("\n")), []byte("\n"), []byte("\r\n"))
 				c.Count("files with CRLF line ends")
 			}
+			if rng.IntN(120) == 0 {
+				// a very long structured comment in the header (a licence text): one line
+				// of more than 64 KiB, or a comment continued over many %%+ lines
+				var cm bytes.Buffer
+				if rng.IntN(2) == 0 {
+					cm.WriteString("%%Copyright: " + strings.Repeat("All rights reserved (c) endcmap def ", 1900) + "\n")
+				} else {
+					cm.WriteString("%%Copyright: begin\n")
+					for i := 0; i < 1200; i++ {
+						cm.WriteString("%%+ " + strings.Repeat("licence text pop end ", 3) + "\n")
+					}
+				}
+				if i := bytes.IndexByte(file, '\n'); i >= 0 && bytes.HasPrefix(file, []byte("%!")) {
+					file = append(append(append([]byte(nil), file[:i+1]...), cm.Bytes()...), file[i+1:]...)
+				} else {
+					file = append(cm.Bytes(), file...)
+				}
+				c.Count("files with a structured comment longer than 64 KiB")
+			}
 			c.SetDetail(func() string { return fmt.Sprintf("file: %q", head(file, 6000)) })
 			d, err := postscript.ReadCMap(bytes.NewReader(file))
 			if err != nil {
@@ -357,6 +376,10 @@ func runC07(r *rt.Runner) {
 			if diffs := compareCMap(d, model); len(diffs) > 0 {
 				c.Violation("valid|"+strings.SplitN(diffs[0], " ", 2)[0], "returned CMap differs from the file:\n  "+joinLines(diffs), "")
 			}
+			// the result belongs to the caller: every code and destination is
+			// written into (as code that enumerates a range in place does); no
+			// later ReadCMap in this process may see any of it
+			c.Runner().Count("bytes of returned CMaps written into", int64(scribbleCMap(d)))
 			entries := 0
 			kinds := map[string]bool{}
 			for _, b := range model.Blocks {
@@ -487,4 +510,55 @@ func runC07(r *rt.Runner) {
 			}
 		})
 	}
+}
+
+// scribbleCMap overwrites every byte string reachable from a returned CMap
+// dictionary and returns the number of bytes written.
+func scribbleCMap(d postscript.Dict) int {
+	n := 0
+	wr := func(b []byte) {
+		for i := range b {
+			b[i] ^= 0x5a
+			n++
+		}
+	}
+	var obj func(o postscript.Object, depth int)
+	obj = func(o postscript.Object, depth int) {
+		if depth > 4 {
+			return
+		}
+		switch o := o.(type) {
+		case postscript.String:
+			wr(o)
+		case postscript.Array:
+			for _, e := range o {
+				obj(e, depth+1)
+			}
+		}
+	}
+	if ci, ok := d["CodeMap"].(*postscript.CMapInfo); ok && ci != nil {
+		for _, r := range ci.CodeSpaceRanges {
+			wr(r.Low)
+			wr(r.High)
+		}
+		for _, l := range [][]postscript.CharMap{ci.CidChars, ci.BfChars, ci.NotdefChars} {
+			for _, e := range l {
+				wr(e.Src)
+				obj(e.Dst, 0)
+			}
+		}
+		for _, l := range [][]postscript.RangeMap{ci.CidRanges, ci.BfRanges, ci.NotdefRanges} {
+			for _, e := range l {
+				wr(e.Low)
+				wr(e.High)
+				obj(e.Dst, 0)
+			}
+		}
+	}
+	if si, ok := d["CIDSystemInfo"].(postscript.Dict); ok {
+		for _, v := range si {
+			obj(v, 0)
+		}
+	}
+	return n
 }
